@@ -26,10 +26,11 @@ def has_ite(t) -> bool:
 
 
 class Obligation:
-    __slots__ = ('name', 'hyps', 'goal', 'kind', 'fn', 'note')
+    __slots__ = ('name', 'hyps', 'goal', 'kind', 'fn', 'note', 'budget')
 
     def __init__(self, name, hyps, goal, kind, fn, note=''):
         self.name, self.hyps, self.goal, self.kind, self.fn, self.note = name, [as_hyp(x) for x in hyps], as_goal(goal), kind, fn, note
+        self.budget = None          # per-attempt solver budget in seconds (None: the tier's default)
 
 
 class State:
